@@ -1,6 +1,6 @@
 (* Model/Builder.v: the builder's setters only record the value given last; negotiation and the
    method are fixed when streaming_body() is called. *)
-From HS Require Import Lib.Base Lib.Bytes Model.Negot Model.Builder.
+From HS Require Import Lib.Base Lib.Bytes Model.Negot Model.Builder Proofs.NegotP.
 
 Inductive bcall := SetChunkSize (n : N) | SetGzipLevel (l : N).
 Definition bapply (b : builder) (c : bcall) : builder :=
@@ -34,4 +34,25 @@ Proof.
   unfold streaming_body in Hs. destruct (should_gzip ae) as [sg|t]; [|discriminate]. cbn [bind] in Hs. inversion Hs; subst b.
   cbn [b_chunk_size b_gzip_level b_should_gzip b_body_needed] in *. unfold build. rewrite H1, H2, H3, H4.
   cbn [b_chunk_size b_gzip_level b_should_gzip b_body_needed]. reflexivity.
+Qed.
+
+(* C15 for streaming_body: the same request sent with HEAD gives, after the same setter calls, the
+   same result of build() -- the same headers, or the same panic (a chunk size of 0) -- except
+   that there is no writer; for any other method there is one. *)
+Theorem streaming_head_mirrors meth ae cs : beq_bytes meth HEAD_M = false ->
+  exists bh bg, streaming_body HEAD_M ae = Ok bh /\ streaming_body meth ae = Ok bg /\
+  match build (fold_left bapply cs bg) with
+  | Ok (h, w) => build (fold_left bapply cs bh) = Ok (h, None) /\ w <> None
+  | Panic t => build (fold_left bapply cs bh) = Panic t
+  end.
+Proof.
+  intros Hm. unfold streaming_body. destruct (Proofs.NegotP.should_gzip_total ae) as [sg ->]. cbn [bind].
+  eexists; eexists. split; [reflexivity|]. split; [reflexivity|].
+  rewrite Hm. change (beq_bytes HEAD_M HEAD_M) with true. cbn [negb].
+  match goal with |- context [fold_left bapply cs ?b] => destruct (builder_calls cs b) as (G1 & G2 & G3 & G4) end.
+  match goal with |- context [build (fold_left bapply cs ?b) = _] => destruct (builder_calls cs b) as (H1 & H2 & H3 & H4) end.
+  cbn [b_chunk_size b_gzip_level b_should_gzip b_body_needed] in *.
+  unfold build. rewrite G1, G2, G3, G4, H1, H2, H3, H4.
+  destruct (last_chunk cs 4096 =? 0); [reflexivity|]. split; [reflexivity|].
+  destruct (sg && (0 <? last_level cs 6)); discriminate.
 Qed.
